@@ -68,10 +68,12 @@ class SimSpec(common.Spec):
                     # the sender's event() call reports the error, the simulation goes on)
                     # ... or that forward the new value to another source (a relay: a sequential
                     # block that no combinational block reads)
-                    skw['on_output'] = [edzed.Event(e['dest'], 'put' if e['etype'] == 'put' else
+                    # with 'at_init' the event is sent during the initialisation as well: its destination
+                    # changes once more before the simulation starts
+                    skw['on_output'] = [edzed.Event(e['dest'], e['etype'] if e['etype'] in ('put', 'inc') else
                                                     edzed.EventCond('nosuch', None)
                                                     if e['etype'] == 'cond_nosuch' else 'nosuch',
-                                                    efilter=edzed.not_from_undef)     # not at start-up
+                                                    efilter=() if e.get('at_init') else edzed.not_from_undef)
                                         for e in b['events']]
                 if kind == 'input':
                     blocks[name] = edzed.Input(name, initdef=dec(b['init']), **skw)
@@ -462,6 +464,19 @@ def gen_acyclic(rng, maxc=12, feedback=True):
                      events=[dict(dest=t['name'], etype='put')])
         blocks.append(relay)
         srcs.append(relay)
+    # an Input created first whose initialisation sends an event to a real source: that source changes
+    # again while the circuit is being initialised
+    quiet = [x for x in srcs if not x.get('events')]    # (an unknown output event at start-up is fatal)
+    if quiet and rng.random() < 0.35:
+        t = rng.choice(quiet)
+        if t['kind'] == 'counter':
+            ini = dict(name='ini', kind='input', init=["i", 1], typ='int',
+                       events=[dict(dest=t['name'], etype='inc', at_init=True)])
+        else:
+            other = (["b", not t['init'][1]] if t['typ'] == 'bool' else ["i", t['init'][1] + 1])
+            ini = dict(name='ini', kind='input', init=other, typ=t['typ'],
+                       events=[dict(dest=t['name'], etype='put', at_init=True)])
+        blocks.insert(0, ini)
     # bursts of external events to the sources
     bursts = []
     for _ in range(rng.randrange(1, 7)):
